@@ -32,13 +32,18 @@ def C03(ctx):
                 "non-trivial = triple with at least one strict comparison")
     ctx.mc("MC_DeweyCmp", "MC_DeweyCmp.%s.cfg" % t)
     ctx.mc("MC_DeweyLaws", "MC_DeweyLaws.%s.cfg" % t)
-    ctx.record_validate("vertriple", q(ctx, 20000, 300000), "Tr_Dewey", "Tr_Dewey.cfg")
+    # the same laws, and "implemented comparison = declarative order", for ALL integer components
+    # (vectors of length <= 4): Apalache, symbolic
+    ctx.apalache("ApaDeweyLaws", "Laws")
+    ctx.apalache("ApaDeweyLaws", "AlgIsRef")
+    ctx.record_validate("vertriple", q(ctx, 20000, 200000), "Tr_Dewey", "Tr_Dewey.cfg", chunk=20000)
 
 
 PROPS = {"C01": C01, "C03": C03}
 
 
 TR_FOR_OP = {
+    "patmatrix": ("Tr_Pattern", {}),
     "vercmp": ("Tr_Dewey", {}), "vertriple": ("Tr_Dewey", {}),
     "patmatch": ("Tr_Pattern", {}), "best": ("Tr_Pattern", {}),
     "reduce": ("Tr_BestMatch", {"devs": {"lb96": "KF1"}, "base_tag": "lb0"}),
@@ -99,6 +104,8 @@ def C02(ctx):
     ctx.emit_replay("MC_PatEnum", "MC_PatEnum.dewey.%s.cfg" % t, "dewey-enum")
     ctx.exhaustive = True
     ctx.record_validate("patdewey", q(ctx, 10000, 150000), "Tr_Pattern", "Tr_Pattern.cfg")
+    # history independence: related patterns x names, pattern-major and name-major, compiled patterns reused
+    ctx.record_validate("patmatrix", q(ctx, 4000, 60000), "Tr_Pattern", "Tr_Pattern.cfg")
 
 
 def C04b(ctx):
@@ -118,6 +125,7 @@ def C05(ctx):
     ctx.emit_replay("MC_PatEnum", "MC_PatEnum.mixed.quick.cfg", "brace-mixed")
     ctx.exhaustive = True
     ctx.record_validate("patglob", q(ctx, 10000, 150000), "Tr_Pattern", "Tr_Pattern.cfg")
+    ctx.record_validate("patmatrix", q(ctx, 3000, 40000), "Tr_Pattern", "Tr_Pattern.cfg")
 
 
 def C06(ctx):
@@ -157,6 +165,8 @@ def C18(ctx):
     ctx.emit_replay("MC_Names", "MC_Names.pkgname.%s.cfg" % t, "pkgname-enum")
     ctx.exhaustive = True
     ctx.record_validate("pkgname", q(ctx, 20000, 200000), "Tr_Names", "Tr_Names.cfg")
+    # the Summary accessors after every call of histories that replace PKGNAME by related names
+    ctx.record_validate("sumnames", q(ctx, 3000, 40000), "Tr_Summary", "Tr_Summary.cfg")
 
 
 def C19(ctx):
@@ -220,9 +230,12 @@ def C09(ctx):
     ctx.emit_run_validate("MC_SummaryStream", "MC_SummaryStream.sim.cfg", "stream-sim", "Tr_SummaryStream",
                           "Tr_SummaryStream.cfg", workers=1, simulate="num=%d" % q(ctx, 600, 6000), seed=ctx.seed,
                           coverage=False)
-    n = q(ctx, 1500, 30000)
-    ctx.record_validate("stream", n, "Tr_SummaryStream", "Tr_SummaryStream.cfg",
-                        args=[n] + ([] if ctx.quick else ["pairs"]))
+    if ctx.quick:
+        ctx.record_validate("stream", 1500, "Tr_SummaryStream", "Tr_SummaryStream.cfg", args=[1500])
+    else:
+        for i in range(8):
+            ctx.record_validate("stream", 4000, "Tr_SummaryStream", "Tr_SummaryStream.cfg", name="stream%d" % i,
+                                args=[4000, "pairs"], seed_offset=104729 * i)
 
 
 PROPS.update({"C07": C07, "C08": C08, "C09": C09})
